@@ -79,6 +79,7 @@ func campaignC16(p *Parser, req *Request, resp *Response) {
 	call.Opts.Stats = countKnown
 	call.Opts.MaxExpr = ref
 	recoverOn := call.Opts.Recover == nil || *call.Opts.Recover
+	leftRec := contains(p.Flags, "-support-left-recursion") && g.LeftRecursive()
 
 	attrs := func(n uint64, cl string) map[string]string {
 		return map[string]string{
@@ -259,7 +260,12 @@ func campaignC16(p *Parser, req *Request, resp *Response) {
 			viol(n, "budget-error-not-last", fmt.Sprintf("the budget error is not the last, typed element of the error list: %q", errMsgs(r)), nil)
 		}
 		// earlier errors: ordered prefix-compatible with the reference's errors
+		// (not under left recursion: seed growing drops the errors of an abandoned
+		// attempt later on, so the reference may have lost what was recorded here)
 		early := errMsgs(r)[:len(r.Errs)-1]
+		if leftRec {
+			early = nil
+		}
 		for i, m := range early {
 			if i >= len(refErrs) || refErrs[i] != m {
 				if !(refExhausted) { // a reference that itself ran out has an incomparable tail
